@@ -350,6 +350,23 @@ def family_e():
     yield Graph([Mod("main", [MAIN_FN], [("a", [("f", "n")])]), Mod("a", [("fn", "f", True)])], "E:no-main")
 
 
+def family_r():
+    """re-export chains main -> b -> a: `b` imports items of `a`; `main` asks `b` for names that `b` only imported
+    (never an item of `b`, whatever their visibility in `a`), alone and next to a genuine pub item of `b`."""
+    for sf, sx, st in itertools.product((1, 2), repeat=3):
+        a = Mod("a", items_from_states({"f": sf, "x": sx, TYPE: st}))
+        pool = [n for n, s_ in (("f", sf), ("x", sx), (TYPE, st)) if s_ == 2]   # what b may legally import
+        for r in range(1, len(pool) + 1):
+            for sub in itertools.combinations(pool, r):
+                for asked in itertools.chain.from_iterable(itertools.combinations(sub, k) for k in range(1, len(sub) + 1)):
+                    for extra in ([], [("g", "n")], [("y", "n")]):
+                        b = Mod("b", [("glob", "y", True), ("fn", "g", True), MAIN_FN], [("a", [(n, kind_of(n)) for n in sub])])
+                        items = [(n, kind_of(n)) for n in asked] + extra
+                        yield Graph([Mod("main", [MAIN_FN], [("b", items)]), b, a], "R:re-export")
+                        if extra:
+                            yield Graph([Mod("main", [MAIN_FN], [("b", extra + [(n, kind_of(n)) for n in asked])]), b, a], "R:re-export")
+
+
 # ---- witnesses of the open findings (never in the main stream) ------------------------------------
 
 V22_GLOBAL_CLASH = {
@@ -377,7 +394,9 @@ def c14_program(rng):
     variables/imports/functions (warnings come out of scope maps), several modules."""
     feats = []
     nfields = rng.randint(2, 12)
-    names = rng.sample(["a", "b", "c", "d", "e", "k1", "k2", "k10", "k", "zz", "y", "x", "a1", "a10", "b_1", "name", "val", "id"], nfields)
+    # (names that differ only in letter case: any order that is not a total order on the exact names shows)
+    names = rng.sample(["a", "b", "c", "d", "e", "k1", "k2", "k10", "k", "zz", "y", "x", "a1", "a10", "b_1", "name", "val", "id",
+                        "A", "B", "X", "Name", "NAME", "Id", "K1", "eTag", "etag", "ETag"], nfields)
     def lit(i):
         return rng.choice([(str(i), "int"), (f'"s{i}"', "str"), ("true", "bool"), (f"[{i}, {i + 1}]", "[int]"), (f"{i}.5", "float")])
     lits = [lit(i) for i in range(nfields)]
